@@ -41,7 +41,8 @@ ForeignAttrs == {
   [d |-> <<"go", "struct">>, paren |-> TRUE, args |-> <<[q |-> FALSE, id |-> 0, s |-> "module"], [q |-> TRUE, id |-> 5, s |-> ""]>>],
   [d |-> <<"cs", "type">>, paren |-> TRUE, args |-> <<[q |-> TRUE, id |-> 4, s |-> ""], [q |-> TRUE, id |-> 3, s |-> ""], [q |-> FALSE, id |-> 0, s |-> "tag"]>>],
   [d |-> <<"rust", "int32">>, paren |-> TRUE, args |-> <<>>],
-  [d |-> <<"a", "b">>, paren |-> TRUE, args |-> <<[q |-> TRUE, id |-> 6, s |-> ""], [q |-> TRUE, id |-> 7, s |-> ""]>>]
+  [d |-> <<"a", "b">>, paren |-> TRUE, args |-> <<[q |-> TRUE, id |-> 6, s |-> ""], [q |-> TRUE, id |-> 7, s |-> ""]>>],
+  [d |-> <<"p", "q">>, paren |-> TRUE, args |-> <<[q |-> TRUE, id |-> 8, s |-> ""], [q |-> TRUE, id |-> 9, s |-> ""], [q |-> TRUE, id |-> 10, s |-> ""]>>]
 }
 DefAttrs == ForeignAttrs \cup {
   [d |-> <<"deprecated">>, paren |-> FALSE, args |-> <<>>],
